@@ -102,9 +102,11 @@ pub fn drive_sign(t: &mut Tracer, tier: &str, seed: u64, plan: Option<String>) {
     // (b) edge and random keys x IDs x message lengths; free nonce (recorded by the hook) and fixed boundary nonces
     let keys = edge_keys(&mut rng, thorough);
     let long_id: String = std::iter::repeat('A').take(8191).collect();
-    let ids: Vec<String> = vec!["1234567812345678".into(), "".into(), "x".into(), "ALICE123@YAHOO.COM".into(), long_id];
+    // (IDs of 53 / 54 bytes put the Z_A hash input, 2 + |ID| + 192 bytes, at SM3's padding boundary 55 / 56 mod 64)
+    let ids: Vec<String> = vec!["1234567812345678".into(), "".into(), "x".into(), "ALICE123@YAHOO.COM".into(), long_id, "i".repeat(53), "j".repeat(54)];
     let g = Gen::new("mix", rng.below(1 << 20));
-    let lens: Vec<usize> = if thorough { vec![0, 1, 31, 32, 33, 55, 56, 64, 100, 1000, 4096] } else { vec![0, 1, 32, 100, 700] };
+    // (23 / 24 put the digest input Z_A || M, 32 + |M| bytes, at SM3's padding boundary)
+    let lens: Vec<usize> = if thorough { vec![0, 1, 23, 24, 31, 32, 33, 55, 56, 64, 87, 100, 1000, 4096] } else { vec![0, 1, 23, 24, 32, 100, 700] };
     let nhex = hexb(N_HEX);
     let mut one = [0u8; 32]; one[31] = 1;
     for (ki, d) in keys.iter().enumerate() {
@@ -143,6 +145,14 @@ pub fn drive_sign(t: &mut Tracer, tier: &str, seed: u64, plan: Option<String>) {
             let sig = o.ok().cloned().unwrap_or_default();
             t.emit(&sess(), "sm2.sign_digest", json!({"prop": "C03", "d": bytes(&key.d), "e": bytes(&e), "mode": "fixed", "fault": v["fault"], "ks": ks.iter().map(|k| bytes(k)).collect::<Vec<_>>(),
                 "sig": bytes(&sig), "outcome": o.name(), "detail": o.detail()}));
+        }
+    }
+    // (c3) conforming signatures constructed by the specification at the digest level (t = r + s with all-zero 64-bit limbs ...): must be accepted
+    for v in read_plan(&plan) {
+        if v["kind"] == "forge" && v["valid"] == true && v["fault"] == "sparse-t" {
+            let (r, s) = (arr(&v["r"]), arr(&v["s"]));
+            if r[0] != 0 || s[0] != 0 { continue; }
+            verify_digest_event(t, &sess(), &arr(&v["pk"]), &arr(&v["e"]), &[r[1..].to_vec(), s[1..].to_vec()].concat(), "sparse-t");
         }
     }
     // (d) OpenSSL-made signatures (committed corpus)
@@ -283,7 +293,7 @@ pub fn drive_encrypt(t: &mut Tracer, tier: &str, seed: u64, plan: Option<String>
         decrypt_event(t, &sess(), "C05", &annex.d, &ct, "c1c3c2", false, "own-ciphertext");
     }
     // message lengths x formats
-    let lens: Vec<usize> = if thorough { (1..=300).collect() } else { vec![1, 2, 31, 32, 33, 63, 64, 65, 96, 127, 128, 255, 256, 300] };
+    let lens: Vec<usize> = if thorough { (1..=300).collect() } else { vec![1, 2, 31, 32, 33, 55, 56, 63, 64, 65, 96, 119, 120, 127, 128, 255, 256, 300] };   // 55 / 56 / 119 / 120: the C3 input x2 || M || y2 at SM3's padding boundary
     let g = Gen::new("mix", rng.below(1 << 20));
     let keys = edge_keys(&mut rng, false);
     for (i, len) in lens.iter().enumerate() {
@@ -351,6 +361,28 @@ pub fn drive_encrypt(t: &mut Tracer, tier: &str, seed: u64, plan: Option<String>
                 let ct = [c1, c3.to_vec(), c2].concat();
                 decrypt_event(t, &sess(), "C05", &key.d, &ct, "c1c3c2", false, "weak-zero");
             }
+        }
+    }
+    // the key stream t is ALL zero (1-byte message): a conforming encryptor draws another nonce (A5), and a ciphertext assembled for that
+    // nonce anyway is refused by decryption (B4)
+    {
+        let key = key_from(&keys[3]).unwrap();
+        let pkp = key.sk.public_key.value().clone();
+        let mut found = None;
+        for i in 1..6000u64 {
+            let k: U256 = [i * 104729 + 3, 0x0f1e_2d3c_4b5a_6978, 0x1122_3344_5566_7788 ^ i, 0x2468_ace0_1357_9bdf];
+            let s = pkp.scalar_mul(&k).to_byte_be(false);
+            if gm_sm2::util::kdf(&s[1..65], 1)[0] == 0 { found = Some((k, s)); break; }
+        }
+        if let Some((k, s)) = found {
+            let m = vec![0x5au8];
+            let k2 = { let mut x = rng.bytes(32); x[0] &= 0x7f; b32(&x) };
+            if let Some(ct) = encrypt_event(t, &sess(), &key, None, &m, "c1c3c2", false, vec![b32(&u256_be(&k)), k2]) {
+                decrypt_event(t, &sess(), "C05", &key.d, &ct, "c1c3c2", false, "own-ciphertext");
+            }
+            let c1 = g_mul(&k).to_byte_be(false);
+            let c3 = gm_sm3::sm3_hash(&[&s[1..33], &m[..], &s[33..65]].concat());
+            decrypt_event(t, &sess(), "C05", &key.d, &[c1, c3.to_vec(), m.clone()].concat(), "c1c3c2", false, "all-zero-t");
         }
     }
     // KDF unit events
@@ -446,6 +478,20 @@ pub fn drive_decrypt_faults(t: &mut Tracer, tier: &str, seed: u64, plan: Option<
         decrypt_event(t, &sess(), "C06", &key.d, &[ct.clone(), vec![0]].concat(), order, comp, "extended");
         let mut d2 = rng.bytes(32); d2[0] &= 0x7f;
         decrypt_event(t, &sess(), "C06", &d2, &ct, order, comp, "other-key");
+        // forgeries that need no key if a degenerate C1 passes the curve test: C1 = (0,0) (also (0,1), (1,0)) with the shared point taken as
+        // (0,0) -- C2 = M xor KDF(0^64), C3 = SM3(0^32 || M || 0^32) -- in both raw orders and in the DER framing
+        if !comp {
+            for (fx, fy) in [(0u8, 0u8), (0, 1), (1, 0)] {
+                let mut c1 = vec![0u8; 65]; c1[0] = 4; c1[32] = fx; c1[64] = fy;
+                let fm = b"forged without a key".to_vec();
+                let k = gm_sm2::util::kdf(&[0u8; 64], fm.len());
+                let c2: Vec<u8> = fm.iter().zip(k.iter()).map(|(a, b)| a ^ b).collect();
+                let c3 = gm_sm3::sm3_hash(&[&[0u8; 32][..], &fm[..], &[0u8; 32][..]].concat()).to_vec();
+                let raw = if order == "c1c3c2" { [c1.clone(), c3.clone(), c2.clone()].concat() } else { [c1.clone(), c2.clone(), c3.clone()].concat() };
+                decrypt_event(t, &sess(), "C06", &key.d, &raw, order, false, "c1-zero-forged");
+                der_decrypt_event(t, &sess(), "C06", &key.d, &raw, order, "c1-zero-forged");
+            }
+        }
         // C1 replaced by random (off-curve) coordinates, by the zero point, by all-ones
         if !comp {
             for rep in 0..4 {
